@@ -776,7 +776,12 @@
            ((not to)
             (reverse (cons `(* ,sre) res)))
            ((= from to)
-            (reverse (cons sre (cdr res))))
+            (if (zero? from)
+                ;; zero repetitions match the empty string; keep the
+                ;; submatches of sre numbered (they are never set) by
+                ;; making the body unreachable
+                `(: (? ,sre (or)))
+                (reverse (cons sre (cdr res)))))
            (else
             (let lp ((i (+ i 1)) (res res))
               (if (>= i to)
